@@ -54,7 +54,7 @@ def bc_slices():
     for extra in ("C16", "C10"):
         try:
             importlib.import_module(f"checks.{extra}")
-            sl.append((extra, {"c13_slice": True, "n": 40}))
+            sl.append((extra, {"c13_slice": True, "n": 40, "archs": 3}))
         except ImportError:
             pass
     return sl
